@@ -7,16 +7,21 @@ import (
 	"math"
 	"strconv"
 	"strings"
+	"sync"
 
 	logging "gopkg.in/op/go-logging.v1"
 )
 
 var ExpressionParser ExpressionParserInterface
 
+var expressionParserInit sync.Once
+
 func InitExpressionParser() {
-	if ExpressionParser == nil {
-		ExpressionParser = newExpressionParser()
-	}
+	expressionParserInit.Do(func() {
+		if ExpressionParser == nil {
+			ExpressionParser = newExpressionParser()
+		}
+	})
 }
 
 var log = logging.MustGetLogger("yq-lib")
